@@ -497,12 +497,15 @@ bool AnalyserInternalEquation::check(const AnalyserModelPtr &model,
         // its unknown variables. Either way, we must remove our "dependencies"
         // on our unknown variables or we will end up in a circular dependency.
 
-        for (const auto &unknownVariable : mUnknownVariables) {
-            auto it = std::find(mDependencies.begin(), mDependencies.end(), unknownVariable->mVariable);
+        // Note: a dependency was recorded using the variable that was tracked at
+        //       the time, which may since have been replaced with an equivalent
+        //       one, so look for any variable equivalent to our unknown variable.
 
-            if (it != mDependencies.end()) {
-                mDependencies.erase(it);
-            }
+        for (const auto &unknownVariable : mUnknownVariables) {
+            mDependencies.erase(std::remove_if(mDependencies.begin(), mDependencies.end(), [&](const auto &dependency) {
+                                    return model->areEquivalentVariables(dependency, unknownVariable->mVariable);
+                                }),
+                                mDependencies.end());
         }
 
         return true;
